@@ -329,12 +329,59 @@ def setup_worker(tier):
     _warmup()
 
 
-def _run(cfg, root, req, tls, cwd):
+_FAKE_STAT = os.stat_result((0o100644, 7, 2049, 1, 0, 0, 4321, 1234567890, 1234567890, 1234567890))
+_SYSTEM = tuple(os.fsencode(p) for p in ("/proc", "/dev", "/sys", "/usr", "/lib", "/opt", "/venv", "/etc", "/root", "/verif", "/repo"))
+
+
+class _StatWorld:
+    """The state of the file system outside the sandbox directory S cannot be set up for real (a path like '/pub/a.zip' lies
+    in the machine's root directory); it is simulated where the server looks: os.stat / os.lstat (and with them
+    os.path.exists, isfile, isdir, getmtime).  Recording: notes every path outside S that the server asks about and that does
+    not exist.  Faking: says such a path is a regular file."""
+
+    def __init__(self, S, fake):
+        self.S, self.fake, self.asked = os.fsencode(S), fake, []
+
+    def __enter__(self):
+        self.saved = (os.stat, os.lstat)
+        real_stat, real_lstat = self.saved
+
+        def wrap(real):
+            def f(path, *a, **kw):
+                try:
+                    return real(path, *a, **kw)
+                except FileNotFoundError:
+                    if isinstance(path, (str, bytes)) and not kw.get("dir_fd"):
+                        # (as the kernel sees it, not normalised: a path that starts inside the sandbox and climbs is resolved
+                        # through the sandbox - worlds A and B are about those)
+                        raw = os.path.join(os.fsencode(os.getcwd()), os.fsencode(path))
+                        pb = os.path.abspath(raw)
+                        if not raw.startswith(self.S) and not pb.startswith(_SYSTEM) and PGV_MARK not in pb:
+                            self.asked.append(pb)
+                            if self.fake:
+                                return _FAKE_STAT
+                    raise
+            return f
+        os.stat, os.lstat = wrap(real_stat), wrap(real_lstat)
+        return self
+
+    def __exit__(self, *exc):
+        os.stat, os.lstat = self.saved
+
+
+PGV_MARK = b"/pgv-"  # the harness's own scratch directories
+
+
+def _run(cfg, root, req, tls, cwd, statworld=None):
     old = os.getcwd()
     os.chdir(cwd)
     try:
         with monitor.armed_for() as evs:
-            r = drive.serve(cfg, req, tls=tls, realfd=True)
+            if statworld is not None:
+                with statworld:
+                    r = drive.serve(cfg, req, tls=tls, realfd=True)
+            else:
+                r = drive.serve(cfg, req, tls=tls, realfd=True)
         evs = list(evs)
     finally:
         os.chdir(old)
@@ -520,7 +567,15 @@ def check_case(case, ctx):
                 ssel = _server_selector(form, sent)
         cwd = {"cwd": os.path.join(S, "cwd"), "S": S, "root": root, "/": "/"}[case["cwd"]]
 
-        ra, eva = _run(cfg, root, req, tls, cwd)
+        swa = _StatWorld(S, fake=False)
+        ra, eva = _run(cfg, root, req, tls, cwd, swa)
+        rc = None
+        if swa.asked:
+            # world C: whatever the server asked about outside the sandbox and did not find is there (a regular file)
+            ctx.label("asks-about-paths-outside-the-sandbox")
+            world.remove_caches(root)
+            world.fix_mtimes(root)
+            rc, evc = _run(cfg, root, req, tls, cwd, _StatWorld(S, fake=True))
         # world B
         for n in os.listdir(S):
             if n != "root":
@@ -559,6 +614,10 @@ def check_case(case, ctx):
                               "reply depends on what exists outside the root (request %r, cwd=%s)" % (req[:100], case["cwd"]),
                               {"worldA": world.u(ra.response[:400]), "worldB": world.u(rb.response[:400]),
                                "logsA": ra.logs[-2:], "logsB": rb.logs[-2:]}))
+        elif rc is not None and rc.response != ra.response:
+            fails.append(Fail("interference:stat:" + _who(ra, rc),
+                              "reply depends on whether %r, a path outside the root, exists (request %r, cwd=%s)" % (swa.asked[0], req[:100], case["cwd"]),
+                              {"absent": world.u(ra.response[:400]), "present": world.u(rc.response[:400])}))
         elif ra.handler_names() != rb.handler_names() or ra.exception_classes() != rb.exception_classes():
             fails.append(Fail("interference-log:" + _who(ra, rb),
                               "handler/exception trace depends on what exists outside the root (request %r)" % (req[:100],),
